@@ -1,4 +1,5 @@
 import BM.Props.C02
+import BM.Props.C02c
 import BM.Props.SrcPin.C02
 /- Top module of property C02: its theorems (BM.Props.C02) and the statement of which units of /repo's
    source its model and proofs were written against (BM/Props/SrcPin/C02.lean, re-checked against the
